@@ -18,6 +18,32 @@ CLAIMED = {
          '(code observes frames only via len/index/metric). Real arithmetic, not floats. Bounds: see evidence.',
     ref='DESIGN.md section 8 C02'),
 }
+CLAIMED.update({
+ 'C01': dict(
+    technique='symbolic execution of kcenters/kmedoids/hybrid (functions + estimators) with an uninterpreted metric; inductive PAM step; z3 validity per path',
+    text='All feasible paths of the real clustering entry points are explored for small N with frames as tokens and the metric an '
+         'uninterpreted function; z3 proves on each path that centers are the frames at their indices, distances are to the assigned '
+         'center, no center is strictly closer, labels in range, centers self-labelled at distance zero, inputs unmodified. K-medoids '
+         'histories are covered by one PAM sweep from an arbitrary consistent state (inductive step).',
+    note='Trusted: symnp shim (validated per path against real NumPy on a solver witness), z3, random-generator stub contract, token/metric '
+         'abstraction. Real arithmetic, not floats. Bounds in evidence.',
+    ref='DESIGN.md section 8 C01'),
+ 'C09': dict(
+    technique='inductive step: one symbolic PAM sweep from an arbitrary consistent state; squares abstracted (UF) with exact refinement; z3',
+    text='One _kmedoids_pam_update sweep from an arbitrary state satisfying the clustering invariant, with arbitrary random draws or '
+         'explicit proposals, is executed symbolically; z3 proves cost non-increase, cluster count kept, centers are input frames, no RNG '
+         'use when proposals are given; hybrid cost <= k-centers cost end-to-end; fixed-seed reproducibility replayed on counterexamples.',
+    note='Trusted: shim, z3, generator stub (NumPy generators deterministic in their seed is assumed). Real arithmetic. Squares are '
+         'uninterpreted in proofs (sound), exact when models are extracted.',
+    ref='DESIGN.md section 8 C09'),
+ 'C10': dict(
+    technique='symbolic execution of assign_to_nearest_center / find_cluster_centers / ClusterResult.partition / partition_indices (unbounded lengths); z3 LIA/LRA validity',
+    text='Both branches of nearest-center assignment, predict, the per-label center finder and the per-trajectory partitioning are run '
+         'symbolically (arbitrary metric, arbitrary center tokens incl. duplicates, opaque values); partition_indices and compute_batches are '
+         'decided for trajectory lengths of unbounded size.',
+    note='Trusted: shim, z3. batch_reassign/reassign (file I/O, joblib) are outside the claim.',
+    ref='DESIGN.md section 8 C10'),
+})
 PENDING = 'check not built yet in this session (work in progress; see DESIGN.md section 8 for the plan)'
 NA = {}
 
